@@ -448,22 +448,92 @@ def chunk_buffers(cls: ast.ClassDef) -> T.Set[str]:
     return out
 
 
-def class_callables(cls: ast.ClassDef, find_class: T.Callable[[str], T.Optional[ast.ClassDef]], depth: int = 0) -> T.Dict[str, ast.FunctionDef]:
-    """Methods of a class body by name, including class-level aliases (`visit_A = visit_B`, `visit_A = Other.method`) and
-    `functools.partialmethod(f, <constants>)` bindings (read as f with its leading parameters replaced by the constants)."""
+class Callables(dict):   # type: ignore[type-arg]
+    """name -> FunctionDef; `.unread` = class-level bindings of a callable-looking value whose shape was not understood."""
+    unread: T.Set[str]
+
+
+def closure_instance(f: ast.FunctionDef, call: ast.Call, name: str) -> T.Optional[ast.FunctionDef]:
+    """`name = f(<constants>)` where the module-level `f` does nothing but define one inner function and return it (a closure
+    factory): the inner function with the factory's parameters replaced by the constants of the call (`*rest` becomes the tuple of
+    the remaining constants).  Folding of constants only; None when the factory or the call has any other shape."""
     import copy
-    out: T.Dict[str, ast.FunctionDef] = {}
+    body = [s for s in f.body if not (isinstance(s, ast.Expr) and isinstance(s.value, ast.Constant))]
+    if len(body) != 2 or not isinstance(body[0], ast.FunctionDef) or not isinstance(body[1], ast.Return) \
+            or not (isinstance(body[1].value, ast.Name) and body[1].value.id == body[0].name) or body[0].decorator_list or f.decorator_list:
+        return None
+    inner = body[0]
+    a = f.args
+    if a.kwonlyargs or a.kwarg or a.defaults or a.posonlyargs or any(isinstance(x, ast.Starred) for x in call.args):
+        return None
+    ps = [x.arg for x in a.args]
+
+    def const(x: ast.AST) -> bool:
+        return isinstance(x, ast.Constant) or (isinstance(x, (ast.Tuple, ast.List)) and all(const(y) for y in x.elts))
+    if not all(const(x) for x in call.args) or not all(k.arg and const(k.value) for k in call.keywords):
+        return None
+    bound: T.Dict[str, ast.AST] = dict(zip(ps, call.args))
+    rest = list(call.args[len(ps):])
+    if rest and not a.vararg:
+        return None
+    for k in call.keywords:
+        if k.arg not in ps or k.arg in bound:
+            return None
+        bound[k.arg] = k.value      # type: ignore[index]
+    if set(bound) != set(ps):
+        return None
+    if a.vararg:
+        bound[a.vararg.arg] = ast.Tuple(elts=rest, ctx=ast.Load())
+    # the inner function must only read the captured names (no rebinding, no shadowing parameter, no nonlocal)
+    for n in ast.walk(inner):
+        if isinstance(n, ast.Name) and n.id in bound and not isinstance(n.ctx, ast.Load):
+            return None
+        if isinstance(n, ast.arg) and n.arg in bound:
+            return None
+        if isinstance(n, (ast.Nonlocal, ast.Global)):
+            return None
+    g = copy.deepcopy(inner)
+    g.name = name
+
+    class Sub(ast.NodeTransformer):
+        def visit_Name(self, n: ast.Name) -> ast.AST:
+            if n.id in bound and isinstance(n.ctx, ast.Load):
+                return ast.copy_location(copy.deepcopy(bound[n.id]), n)
+            return n
+    g.body = [Sub().visit(x) for x in g.body]
+    ast.fix_missing_locations(g)
+    return g
+
+
+def class_callables(cls: ast.ClassDef, find_class: T.Callable[[str], T.Optional[ast.ClassDef]], depth: int = 0,
+                    find_func: T.Optional[T.Callable[[str], T.Optional[ast.FunctionDef]]] = None) -> 'Callables':
+    """Methods of a class body by name, including class-level aliases (`visit_A = visit_B`, `visit_A = Other.method`),
+    `functools.partialmethod(f, <constants>)` bindings (read as f with its leading parameters replaced by the constants) and
+    instances of a module-level closure factory called with constants (`visit_A = _make('x', 'y')`, see closure_instance).
+    A class-level binding to a call/lambda/attribute that is none of these is recorded in `.unread`."""
+    import copy
+    out = Callables()
+    out.unread = set()
     for st in cls.body:
         if isinstance(st, ast.FunctionDef):
             out[st.name] = st
+            out.unread.discard(st.name)
         elif isinstance(st, ast.Assign) and len(st.targets) == 1 and isinstance(st.targets[0], ast.Name) and depth < 3:
             name, v = st.targets[0].id, st.value
-            if isinstance(v, ast.Name) and v.id in out:
+            n_before = out.get(name)
+            if isinstance(v, (ast.Call, ast.Lambda, ast.Attribute, ast.Name, ast.Subscript, ast.IfExp)):
+                out.unread.add(name)
+                out.pop(name, None)
+            if isinstance(v, ast.Call) and isinstance(v.func, ast.Name) and find_func is not None and find_func(v.func.id) is not None:
+                g0 = closure_instance(find_func(v.func.id), v, name)      # type: ignore[arg-type]
+                if g0 is not None:
+                    out[name] = g0
+            elif isinstance(v, ast.Name) and v.id in out:
                 out[name] = out[v.id]
             elif isinstance(v, ast.Attribute) and isinstance(v.value, ast.Name):
                 k = find_class(v.value.id)
                 if k is not None:
-                    m = class_callables(k, find_class, depth + 1).get(v.attr)
+                    m = class_callables(k, find_class, depth + 1, find_func).get(v.attr)
                     if m is not None:
                         out[name] = m
             elif isinstance(v, ast.Call) and (attr_chain(v.func) or '').split('.')[-1] == 'partialmethod' and v.args and isinstance(v.args[0], ast.Name) \
@@ -486,6 +556,8 @@ def class_callables(cls: ast.ClassDef, find_class: T.Callable[[str], T.Optional[
                 g.body = [Sub().visit(x) for x in g.body]
                 ast.fix_missing_locations(g)
                 out[name] = g
+            if name in out:
+                out.unread.discard(name)
     return out
 
 
